@@ -825,6 +825,9 @@ class Env:
                 continue  # first assigned inside the loop
             cur = frame.locals[name]
             srt = inv.vars.get(name)
+            if srt is not None and not isinstance(srt, Sort):
+                frame.locals[name] = srt(it)
+                continue
             if srt is None:
                 if isinstance(cur, (list, dict, set)) or isinstance(cur, (SObj, StubObj, SymRecDict)):
                     if name in ms.names and name not in ms.mutated:
@@ -959,6 +962,17 @@ class Env:
         for f in inv.inv:
             r = eval_clause(it, f, ns_now())
             ctx.oblige(f"{tag}.{f.__name__}.preserved", ops.truth_term(r))
+        # per-iteration ("step") clauses: what ONE arbitrary iteration did, over the events it produced
+        if inv.step:
+            ns = ns_now()
+            ns["iter_trace"] = list(ctx.trace[n_trace:])
+            for k, v in head_locals.items():
+                ns[k + "__head"] = v
+            if isinstance(selfobj, SObj):
+                ns["head"] = _DictObj(head_fields)
+            for f in inv.step:
+                r = eval_clause(it, f, ns)
+                ctx.oblige(f"{tag}.step.{f.__name__}", ops.truth_term(r), assume_after=False)
         if inv.decreases is not None:
             var1 = eval_clause(it, inv.decreases, ns_now())
             ctx.oblige(f"{tag}.decreases", z3.And(ops.int_term(var1) < ops.int_term(var0), ops.int_term(var0) >= 0))
@@ -972,6 +986,8 @@ class Env:
                 continue
             seen.add(m)
             name = m.split(".", 1)[1] if m.startswith("super.") else m
+            if not m.startswith("super.") and name in selfobj.fields:
+                continue  # shadowed by a contract-level stub: its frame is what the stub does (declared in vars)
             a = it.class_lookup(selfobj.cls, name)
             if m.startswith("super."):
                 # any class in the MRO may define it; take all definitions
